@@ -256,19 +256,9 @@ def builder(prog, chk):
         okg = okg and bool(inner) and all("AttributeWriteExt" in n and n.rstrip("]").split("[")[0].endswith("::write_into") or n.endswith("AttributeWriteExt::write_into") for n in inner)
         raw = raw + [n for n in inner if "unchecked" in n]
     chk.ob("builder-guard", "attributes are written through the guarded AttributeWriteExt::write_into", okg, detail=repr(raw[:2]), how="call sites")
-    # header coverage: constant ranges written before the attribute loop cover [0, 20)
-    ranges = []
-    for bi, t in b.calls():
-        name = og.callee_name(t)
-        if re.search(r"IndexMut<std::ops::(Range|RangeTo)<usize>> for \[u8\]>::index_mut$", name):
-            r = shape(og.operand(t["args"][1]))
-            if r[0] == "agg" and all(x[0] == "const" for x in r[2]):
-                vals = [x[1] for x in r[2]]
-                ranges.append((0, vals[0]) if "RangeTo" in r[1] else (vals[0], vals[1]))
-    cov = set()
-    for lo, hi in ranges:
-        cov |= set(range(lo, hi))
-    chk.ob("builder-header", "the header writes cover exactly bytes [0, 20)", cov == set(range(20)), detail=repr(sorted(ranges)), how="constant ranges")
+    # header coverage: read off the content of the output buffer after write_into (E2, content tracking)
+    from rules import content_e2 as CE
+    CE.header_clauses(prog, chk, {"coverage"})
     # build(): vec![0; byte_len-equivalent] then write_into
     bb = prog.bodies[MBK + "build"]
     bog = Origins(prog, bb)
